@@ -260,6 +260,22 @@ def mutate(target, how, ctx_leaf):
     try:
         if isinstance(target, U.Node):
             target = target.children
+        if hasattr(type(target), '__optree_dataclass_fields__'):
+            # an optree dataclass: fields can be rebound or deleted, the field count is fixed by the class
+            names = list(type(target).__optree_dataclass_fields__[0])
+            if how == 'replace':
+                setattr(target, names[0], [ctx_leaf, {'q': ctx_leaf}])
+            elif how in ('delete_back', 'clear'):
+                if not hasattr(target, names[-1]):
+                    return False
+                delattr(target, names[-1])
+            elif how == 'rotate' and len(names) > 1:
+                a, b = getattr(target, names[0]), getattr(target, names[-1])
+                setattr(target, names[0], b)
+                setattr(target, names[-1], a)
+            else:
+                return False
+            return True
         if isinstance(target, dict):
             keys = list(dict.keys(target))
             if how == 'delete_front':
@@ -364,6 +380,15 @@ def clone_with(tree, victim, how, ctx):
         if isinstance(x, U.Node):
             kids = [rec(c) for c in x.children]
             return type(x)(alter(kids) if x is victim else kids, x.aux)
+        if hasattr(type(x), '__optree_dataclass_fields__'):
+            names = list(type(x).__optree_dataclass_fields__[0])
+            kids = [rec(getattr(x, n)) for n in names]
+            if x is victim:  # the field count belongs to the class: the mismatching twin is a plain tuple
+                return tuple(kids) if how == 'kind-swap' else tuple(alter(kids))
+            new = clone(x)
+            for n, k in zip(names, kids):
+                object.__setattr__(new, n, k)
+            return new
         if isinstance(x, dict):
             items = [(k, rec(v)) for k, v in x.items()]
             if x is victim and how == 'kind-swap':
